@@ -2,12 +2,12 @@ package main
 
 import (
 	"encoding/json"
-	"path/filepath"
 	"fmt"
 	"go/ast"
 	"go/token"
 	"go/types"
 	"os"
+	"path/filepath"
 	"sort"
 	"strings"
 	"sync"
@@ -528,7 +528,7 @@ type side struct {
 	st         *State
 	params     []Val
 	prefix     string
-	loop       int // > 0: only one iteration of this loop is executed
+	loop       int  // > 0: only one iteration of this loop is executed
 	byContract bool // the side is represented by its (separately verified) contract, not its body
 	regionExit *State
 }
